@@ -7,7 +7,7 @@ use ruint::Uint;
 use vmon::{an, au, big, gen, uint, Arg, Mon};
 
 vmon::widths!(exec; 0, 1, 2, 3, 7, 8, 9, 16, 31, 32, 60, 63, 64, 65, 100, 127, 128, 129, 160, 192, 193,
-    250, 255, 256, 257, 320, 384, 512, 521, 1024, 2048, 4096);
+    250, 255, 256, 257, 320, 384, 512, 521, 1024, 2048, 4096, 4160, 16448);
 
 fn bit_of(v: &[u64], i: usize) -> bool {
     i / 64 < v.len() && (v[i / 64] >> (i % 64)) & 1 == 1
